@@ -45,19 +45,10 @@ def parsedToArr : Parsed → Arr
   | .vec cs => .vec cs
   | .mat _ _ rows => .nd 2 rows.flatten
 
-/-- `np.array(other)` / `str2array(other)` as `__add__` / `__radd__` call them (no `try`: an OverflowError of
-    `str2array` escapes); `none` = not modelled (complex-class strings) -/
+/-- `np.array(data)` for non-strings; for a `str`, `str2array(data)` inside `try … except OverflowError → ValueError`,
+    as the constructor, `__add__` and `__radd__` all do (`Other` is the model's name for the OverflowError of an integer
+    literal outside the C long range); `none` = not modelled (complex-class strings) -/
 def toArr : Data → Option (Except Wire.Err Arr)
-  | .arr a => some (.ok a)
-  | .str s =>
-    match str2array s with
-    | .ok p => some (.ok (parsedToArr p))
-    | .err e => some (.error e)
-    | .unmodelled => none
-
-/-- the constructor's own conversion: `str2array(data)` inside `try … except OverflowError → ValueError`
-    (`Other` is the model's name for the OverflowError of an integer literal outside the C long range) -/
-def toArrCtor : Data → Option (Except Wire.Err Arr)
   | .arr a => some (.ok a)
   | .str s =>
     match str2array s with
@@ -67,7 +58,7 @@ def toArrCtor : Data → Option (Except Wire.Err Arr)
 
 /-- `binary_sequence(data)` -/
 def mk (d : Data) : Option (Except Wire.Err (List Nat)) :=
-  (toArrCtor d).map (fun r => r.bind mkArr)
+  (toArr d).map (fun r => r.bind mkArr)
 
 /-! ### operators; a sequence is the list of its uint8 values -/
 
